@@ -64,7 +64,7 @@ def h_pool_ownership(shape):
 import io  # noqa: E402
 
 from harness.stubs import TokenCodec  # noqa: E402
-from harness.c17 import Handler, ShortReader  # noqa: E402
+from harness.c17 import Handler, ShortReader, h_do_post  # noqa: E402,F401
 
 
 class Boom(Exception):
